@@ -481,6 +481,19 @@ class Body:
         return out
 
 
+    def control_deps_pd(self, bb):
+        """switch blocks on which `bb` is control dependent in the classical sense (also inside loops): bb post-dominates one
+        successor of S but not S itself"""
+        pd = self.postdominators()
+        out = []
+        for s in self.reachable():
+            t = self.term(s)
+            if t['k'] != 'switch' or s not in pd or bb in (pd[s] - {s}):
+                continue
+            if any(x in pd and bb in pd[x] for x in self.succs(s)):
+                out.append(s)
+        return out
+
 # ------------------------------------------------------------------------------------------------
 # facts
 
